@@ -45,6 +45,9 @@ fn main() {
             std::process::exit(2);
         }
     };
+    // a call into the subject that never returns must not make the check itself hang
+    let wd = std::env::var("VERIF_WATCHDOG_S").ok().and_then(|s| s.parse::<f64>().ok()).unwrap_or(if tier == Tier::Quick { 240.0 } else { 1500.0 });
+    common::start_watchdog(&args[1], wd);
     let code = match args[1].as_str() {
         "C01" => props::c01::run(tier),
         "C02" => props::c02::run(tier),
